@@ -234,7 +234,7 @@ POLY_ESTATES = ["addc", "refine", "cons", "meet", "queried", "minq", "pend"]
 SHAPE_ESTATES = ["addc", "refine", "cons", "meet", "queried", "minq"]
 
 
-def empty_probe(L, fresh, r, topo, dim, w, x, routes, estates, cs_text, bounded):
+def empty_probe(L, fresh, r, topo, dim, w, x, routes, estates, cs_text, bounded, tokens=True):
     """x widened by an empty y presented in several emptiness states: same results, same token consumption."""
     x2 = fresh(); L.append("mk %d %s %d %d" % (x2, r.choice(routes), x, r.randrange(1 << 20)))
     states = ["marked"] + r.sample(estates, 3)
@@ -243,7 +243,9 @@ def empty_probe(L, fresh, r, topo, dim, w, x, routes, estates, cs_text, bounded)
         ye = fresh(); L.append("newe %d %s %d %s %d" % (ye, topo, dim, st, r.randrange(1 << 20)))
         xi = x if k % 2 == 0 else x2
         p = fresh(); L.append("widen %s %d %d %d -1" % (w, p, xi, ye))
-        t = fresh(); L.append("widen %s %d %d %d 2 plain %d" % (w, t, xi, ye, p))
+        t = p
+        if tokens:
+            t = fresh(); L.append("widen %s %d %d %d 2 plain %d" % (w, t, xi, ye, p))
         ids = [p, t]
         if cs_text is not None:
             l = fresh(); L.append("lim %s limited %d %d %d -1 %s plain %d" % (w, l, xi, ye, cs_text, p)); ids.append(l)
@@ -261,7 +263,8 @@ def empty_probe(L, fresh, r, topo, dim, w, x, routes, estates, cs_text, bounded)
     xe = fresh(); L.append("newe %d %s %d %s %d" % (xe, topo, dim, r.choice(estates), r.randrange(1 << 20)))
     ye = fresh(); L.append("newe %d %s %d %s %d" % (ye, topo, dim, r.choice(["marked"] + estates), r.randrange(1 << 20)))
     p = fresh(); L.append("widen %s %d %d %d -1" % (w, p, xe, ye))
-    t = fresh(); L.append("widen %s %d %d %d 1 plain %d" % (w, t, xe, ye, p))
+    if tokens:
+        t = fresh(); L.append("widen %s %d %d %d 1 plain %d" % (w, t, xe, ye, p))
 
 
 def make_case(seed, cid, quick=True, family=None, dim=None, topo=None, widenings=WIDENINGS):
@@ -399,6 +402,21 @@ def shape_chain(r, kind, n, length):
     return ys
 
 
+def stop_points(r):
+    """A non-default stop-point list for the CC76 overloads: equal to the defaults, disjoint from them, overlapping,
+    empty, a single point, with rationals; ascending."""
+    k = r.random()
+    if k < 0.1: pts = [-2, -1, 0, 1, 2]
+    elif k < 0.2: pts = []
+    elif k < 0.35: pts = [r.randint(-4, 12)]
+    elif k < 0.6: pts = r.sample([x for x in range(-8, 16) if x < -2 or x > 2], r.randint(2, 5))       # disjoint from the defaults
+    elif k < 0.85: pts = r.sample(range(-5, 12), r.randint(2, 6))                                      # overlapping
+    else: pts = [x / 2 for x in r.sample(range(-9, 25), r.randint(2, 5))]
+    pts = sorted(set(pts))
+    fmt = lambda q: str(int(q)) if float(q).is_integer() else "%d/2" % int(round(q * 2))
+    return "CC76sp[%s]" % ",".join(fmt(q) for q in pts)
+
+
 def make_shape_case(seed, cid, quick=True, kind=None):
     r = random.Random(seed)
     kind = kind or r.choice(["BDS", "BDS", "OCT", "OCT", "BOX"])
@@ -411,11 +429,14 @@ def make_shape_case(seed, cid, quick=True, kind=None):
     def new_y(y):
         i = fresh(); L.append("new %d %s %d %s" % (i, kind, n, fmt_cons(y))); return i
     y0 = new_y(ys[0])
-    X = {w: y0 for w in SHAPE_WIDENINGS[kind]}
+    # the overload with EXTRA PARAMETERS: CC76 with a caller-supplied stop-point range (tokens: BDS and octagons only)
+    wids = SHAPE_WIDENINGS[kind] + [stop_points(r)]
+    X = {w: y0 for w in wids}
     p_extra = 0.45 if quick else 0.7
     for k in range(1, len(ys)):
         yk = new_y(ys[k])
-        for w in SHAPE_WIDENINGS[kind]:
+        for w in wids:
+            issp = w.startswith("CC76sp")
             x = X[w]
             a = fresh(); L.append("hull %d %d %d" % (a, x, yk))
             ra, rb = [a], [x]
@@ -427,10 +448,11 @@ def make_shape_case(seed, cid, quick=True, kind=None):
             for (ia, ib) in pairs:
                 i = fresh(); L.append("widen %s %d %d %d -1" % (w, i, ia, ib)); res.append(i)
             L.append("#! same %d %d" % (res[0], res[1])); L.append("#! same %d %d" % (res[0], res[2]))
-            if r.random() < p_extra:
+            if (r.random() < p_extra or issp) and not (issp and kind == "BOX"):
+                # judged against the plain call of the same representation pair WITH THE SAME PARAMETERS
                 for (t, pi) in [(1, 0), (r.choice([2, 3]), 1), (0, 2)]:
                     i = fresh(); L.append("widen %s %d %d %d %d plain %d" % (w, i, pairs[pi][0], pairs[pi][1], t, res[pi]))
-            if r.random() < p_extra:
+            if r.random() < p_extra and not issp:
                 cs = []
                 for _ in range(r.randint(2, 4)):
                     v = shape_dir(r, kind, n)
@@ -446,8 +468,9 @@ def make_shape_case(seed, cid, quick=True, kind=None):
         cs = []
         for _ in range(r.randint(2, 3)):
             cs.append((">=", r.randint(-2, 12), shape_dir(r, kind, n)))
-        for w in SHAPE_WIDENINGS[kind]:
-            empty_probe(L, fresh, r, kind, n, w, X[w], SHAPE_ROUTES, SHAPE_ESTATES, fmt_cons(cs), False)
+        for w in wids:
+            sp = w.startswith("CC76sp")
+            empty_probe(L, fresh, r, kind, n, w, X[w], SHAPE_ROUTES, SHAPE_ESTATES, None if sp else fmt_cons(cs), False, tokens=not (sp and kind == "BOX"))
     L.append("end")
     return L
 
